@@ -330,3 +330,255 @@ def drive_c17(ctx):
         'FRAME_END_CHAR': list(constants.FRAME_END_CHAR), 'REPLY_SUCCESS': constants.REPLY_SUCCESS})
     rec.add('UnmarshalingExc', P, nt=True, base=issubclass(exceptions.UnmarshalingException, exceptions.PAMQPException),
             amqp=issubclass(exceptions.UnmarshalingException, exceptions.AMQPError))
+
+
+# ---------------------------------------------------------------------------
+# C05  decoder accepts every well-formed wire frame (grammar-side generation)
+# ---------------------------------------------------------------------------
+@driver('C05')
+def drive_c05(ctx):
+    import struct
+    import wiregen
+    rec, rng = ctx.rec, ctx.rng
+    P = ['C05']
+    n = 1 if ctx.quick else 12
+    # every tag, boundary payloads
+    for tag in wiregen.TAGS:
+        for _ in range(12 * n):
+            rec.add('DecodeValue', P, nt=True, **actions.decode_value(wiregen.rand_value(rng, 3, tag), 'top'))
+    for _ in range(150 * n):
+        rec.add('DecodeValue', P, nt=True, **actions.decode_value(wiregen.rand_table(rng, 3), 'table'))
+    for _ in range(60 * n):
+        body = b''.join(wiregen.rand_value(rng, 2) for _ in range(rng.randint(0, 5)))
+        rec.add('DecodeValue', P, nt=True, **actions.decode_value(struct.pack('>I', len(body)) + body, 'array'))
+    for i, v in enumerate(wiregen.TS_VALUES + wiregen.TS_REFUSED):
+        if mine(ctx, i):
+            rec.add('DecodeValue', P, nt=True, **actions.decode_value(b'T' + struct.pack('>Q', v), 'top'))
+    for _ in range(20 * n):
+        v = rng.choice([rng.randint(2 ** 32, 253402300799999), rng.randint(253402300800000, 2 ** 64 - 1)])
+        rec.add('DecodeValue', P, nt=True, **actions.decode_value(b'T' + struct.pack('>Q', v), 'top'))
+    # frames: all 64 methods, headers (unused flag bit, weight, several flag words), bodies, heartbeat, protocol header
+    for sm in framegen.METHODS:
+        for _ in range(3 * n):
+            rec.add('Unmarshal', P, nt=True, sigx=sm[0], **actions.unmarshal(wiregen.rand_method_frame(rng, sm)))
+    for _ in range(120 * n):
+        rec.add('Unmarshal', P, nt=True, sigx='header', **actions.unmarshal(wiregen.rand_header_frame(rng)))
+    for _ in range(10 * n):
+        rec.add('Unmarshal', P, nt=True, sigx='header-flagwords', **actions.unmarshal(
+            wiregen.rand_header_frame(rng, True, extra_words=rng.choice([1, 2]))))
+    for _ in range(40 * n):
+        rec.add('Unmarshal', P, nt=True, sigx='other', **actions.unmarshal(wiregen.rand_wire_frame(rng)))
+
+
+# ---------------------------------------------------------------------------
+# C07  strict prefixes of valid frames
+# ---------------------------------------------------------------------------
+def corpus_frames(ctx, n, big=False):
+    """complete valid frames (bytes) of all kinds produced by the library's own encoder and by the grammar"""
+    import wiregen
+    from pamqp import frame, heartbeat, header
+    rng = ctx.rng
+    out = []
+    for i, sm in enumerate(framegen.METHODS):
+        if mine(ctx, i) or not ctx.quick:
+            f = framegen.rand_method(rng, sm)
+            try:
+                out.append(frame.marshal(f, framegen.rand_channel(rng)))
+            except Exception:  # noqa
+                pass
+    out.append(frame.marshal(heartbeat.Heartbeat(), 0))
+    out.append(frame.marshal(header.ProtocolHeader(), 0))
+    while len(out) < n:
+        c = rng.random()
+        try:
+            if c < 0.5:
+                f, ch = framegen.rand_frame(rng)
+                out.append(frame.marshal(f, ch))
+            else:
+                out.append(wiregen.rand_wire_frame(rng, lenient=False))
+        except Exception:  # noqa
+            pass
+    if big:
+        from pamqp import body
+        for ln in (4096, 131064):
+            out.append(frame.marshal(body.ContentBody(bytes(rng.getrandbits(8) for _ in range(ln))), 1))
+    return out
+
+
+def strategic_cuts(rng, n):
+    s = set(range(0, min(n, 24))) | set(range(max(0, n - 16), n)) | {n // 2, n // 3}
+    s |= {rng.randrange(n) for _ in range(24)}
+    return sorted(x for x in s if 0 <= x < n)
+
+
+@driver('C07')
+def drive_c07(ctx):
+    rec, rng = ctx.rec, ctx.rng
+    frames = corpus_frames(ctx, 24 if ctx.quick else 330, big=not ctx.quick and ctx.shard == 0)
+    for b in frames:
+        cuts = None if len(b) <= (700 if ctx.quick else 4200) else strategic_cuts(rng, len(b))
+        rec.add('CutSet', ['C07'], nt=len(b) > 8, sigx='type%d' % b[0], **actions.cutset(b, cuts))
+
+
+# ---------------------------------------------------------------------------
+# C20  header peek
+# ---------------------------------------------------------------------------
+@driver('C20')
+def drive_c20(ctx):
+    rec, rng = ctx.rec, ctx.rng
+    P = ['C20']
+    for n in range(0, 17):
+        for _ in range(4):
+            if mine(ctx, n):
+                rec.add('FrameParts', P, nt=True, **actions.frame_parts(bytes(rng.getrandbits(8) for _ in range(n))))
+    k = 0
+    for pos in range(7):
+        for x in range(256):
+            k += 1
+            if not mine(ctx, k):
+                continue
+            b = bytearray(rng.getrandbits(8) for _ in range(7))
+            b[pos] = x
+            tail = bytes(rng.getrandbits(8) for _ in range(rng.choice([0, 0, 1, 5, 40])))
+            rec.add('FrameParts', P, nt=True, **actions.frame_parts(bytes(b) + tail))
+    for _ in range(20):
+        b = bytes([rng.choice([128, 255, 200])]) + bytes([rng.choice([128, 255]), rng.getrandbits(8)]) + \
+            bytes([rng.choice([128, 255, 0x80]), rng.getrandbits(8), rng.getrandbits(8), rng.getrandbits(8)])
+        rec.add('FrameParts', P, nt=True, **actions.frame_parts(b + b'tail'))
+    for _ in range(40 if ctx.quick else 1500):
+        f, ch = framegen.rand_frame(rng)
+        if type(f).__name__ == 'ProtocolHeader':
+            continue
+        tail = bytes(rng.getrandbits(8) for _ in range(rng.choice([0, 1, 7, 8, 30])))
+        ev = actions.peek(f, ch, tail)
+        if ev is not None:
+            rec.add('Peek', P, nt=True, **ev)
+
+
+# ---------------------------------------------------------------------------
+# C19  mapping protocol
+# ---------------------------------------------------------------------------
+@driver('C19')
+def drive_c19(ctx):
+    from pamqp import commands, frame
+    rec, rng = ctx.rec, ctx.rng
+    P = ['C19']
+    reps = 1 if ctx.quick else 20
+    for rep in range(reps):
+        for i, sm in enumerate(framegen.METHODS):
+            if not mine(ctx, i + rep):
+                continue
+            f = framegen.rand_method(rng, sm)
+            rec.add('Observe', P, nt=True, stage='constructed', **actions.observe(f))
+            name, cid, mid, args = sm
+            if args:
+                a, ty, d = rng.choice(args)
+                setattr(f, a, framegen.valid_arg(rng, '-', '-', ty))
+                rec.add('Observe', P, nt=True, stage='after-setattr', **actions.observe(f))
+            try:
+                g = frame.unmarshal(frame.marshal(framegen.rand_method(rng, sm), 1))[2]
+                rec.add('Observe', P, nt=True, stage='decoded', **actions.observe(g))
+            except Exception:  # noqa
+                pass
+        if mine(ctx, rep):
+            h = framegen.rand_header(rng)
+            rec.add('Observe', P, nt=True, stage='constructed', **actions.observe(h.properties))
+            h.properties.priority = rng.randint(0, 9)
+            rec.add('Observe', P, nt=True, stage='after-setattr', **actions.observe(h.properties))
+            g = frame.unmarshal(frame.marshal(framegen.rand_header(rng), 1))[2]
+            rec.add('Observe', P, nt=True, stage='decoded', **actions.observe(g.properties))
+            rec.add('Observe', P, nt=True, stage='default', **actions.observe(commands.Basic.Properties()))
+
+
+# ---------------------------------------------------------------------------
+# C13  validation: exactly the specified constraints, on send only
+# ---------------------------------------------------------------------------
+def c13_values(rng, cls, arg, ty):
+    """values around every constraint of (cls, arg)"""
+    key = (cls, arg)
+    NC = framegen.NAME_CHARS
+    if arg == 'ticket' and ty == 'short':
+        return [0, 1, 65535, False, True, None]
+    if key in framegen.FIXED:
+        fx = framegen.FIXED[key]
+        if isinstance(fx, bool):
+            return [False, True, None]
+        return [fx, '', 'x', '0', '00', ' ', None]
+    if key in framegen.EXCH or key in framegen.QUEUE:
+        lim = 127 if key in framegen.EXCH else 256
+        vals = ['', 'a', 'Z' * (lim - 1), 'q' * lim, 'q' * (lim + 1), NC, 'amq.direct', 'a b', 'a/b,c#d@e:f.g_h-i',
+                'a\n', '\n', 'a\nb', 'é', 'a!b', 'tab\t', 'a\x00', 'a*', 'x' * 126 + '\n', None,
+                ''.join(rng.choice(NC) for _ in range(rng.randint(0, lim))), 'Ω', 'a\\b', 'a"b', "a'b", 'a[b]', 'a^b', 'a`b', 'a~']
+        return vals
+    if key in framegen.MAXLEN:
+        lim = framegen.MAXLEN[key]
+        return ['/', '', 'v' * (lim - 1), 'v' * lim, 'v' * (lim + 1), 'é' * lim, 'é' * (lim + 1), 'a\nb', None]
+    return []
+
+
+@driver('C13')
+def drive_c13(ctx):
+    import struct
+    import wiregen
+    rec, rng = ctx.rec, ctx.rng
+    P = ['C13']
+    k = 0
+    constrained = []
+    for sm in framegen.METHODS:
+        name, cid, mid, args = sm
+        for a, ty, d in args:
+            vals = c13_values(rng, name, a, ty)
+            if vals:
+                constrained.append((sm, a, ty, vals))
+    for sm, a, ty, vals in constrained:
+        name = sm[0]
+        for v in vals:
+            k += 1
+            if not mine(ctx, k):
+                continue
+            rec.add('Construct', P, nt=True, sigx='%s.%s' % (name, a), **actions.construct(name, {a: v}))
+            base = framegen.method_kwargs(rng, sm)
+            rec.add('SetThenMarshal', P, nt=True, sigx='%s.%s' % (name, a), **actions.set_then_marshal(name, base, a, v))
+            base2 = framegen.method_kwargs(rng, sm)
+            base2[a] = v
+            rec.add('Construct', P, nt=True, sigx='%s.%s' % (name, a), **actions.construct(name, base2))
+    # unconstrained arguments accept anything of their type; all-valid random constructions
+    for i, sm in enumerate(framegen.METHODS):
+        if mine(ctx, i):
+            for _ in range(2 if ctx.quick else 30):
+                rec.add('Construct', P, nt=True, sigx=sm[0], **actions.construct(sm[0], framegen.method_kwargs(rng, sm)))
+    # Basic.Properties
+    if mine(ctx, 0):
+        for dm in [None, 0, 1, 2, 3, 255, -1]:
+            rec.add('Construct', P, nt=True, sigx='Properties.delivery_mode', **actions.construct('Basic.Properties', {'delivery_mode': dm}))
+        for cid_ in ['', 'x', ' ']:   # None: the statement does not fix the outcome, not driven
+            rec.add('Construct', P, nt=True, sigx='Properties.cluster_id', **actions.construct('Basic.Properties', {'cluster_id': cid_}))
+        rec.add('Construct', P, nt=True, sigx='Properties', **actions.construct('Basic.Properties', {'content_type': 'a\nb', 'priority': 200, 'delivery_mode': 2}))
+    # character class: every Unicode code point as a one-character name
+    name_args = [(sm, a) for sm, a, ty, vals in constrained if (sm[0], a) in framegen.EXCH or (sm[0], a) in framegen.QUEUE]
+    blocks = [(lo, min(lo + 4095, 0x10FFFF)) for lo in range(0, 0x110000, 4096)]
+    full = name_args if not ctx.quick else [name_args[0], [x for x in name_args if (x[0][0], x[1]) in framegen.QUEUE][0]]
+    k = 0
+    for sm, a in name_args:
+        for lo, hi in blocks:
+            if (sm, a) not in full and lo > 0:
+                continue            # quick: ASCII..U+0FFF block for every argument, all planes for two of them
+            k += 1
+            if mine(ctx, k):
+                rec.add('CharBlock', P, nt=True, sigx='%s.%s' % (sm[0], a), **actions.char_block(sm[0], {}, a, lo, hi))
+        if not ctx.quick or (sm, a) in full:
+            for tpl in [('a', 'b'), ('', 'z'), ('q', '')]:
+                k += 1
+                if mine(ctx, k):
+                    rec.add('CharBlock', P, nt=True, sigx='%s.%s' % (sm[0], a), **actions.char_block(sm[0], {}, a, 0, 4095, tpl))
+    # decoding never validates: frames carrying values the send side refuses
+    for i, sm in enumerate(framegen.METHODS):
+        if mine(ctx, i):
+            for _ in range(2 if ctx.quick else 25):
+                rec.add('Unmarshal', P, nt=True, sigx=sm[0], wf=True, **actions.unmarshal(wiregen.rand_method_frame(rng, sm, lenient=True)))
+    if mine(ctx, 1):
+        for _ in range(10 if ctx.quick else 200):
+            # delivery_mode outside {1,2}, cluster_id set
+            flags = (1 << 12) | (1 << 2) | (rng.getrandbits(14) << 2)
+            rec.add('Unmarshal', P, nt=True, sigx='header', wf=True, **actions.unmarshal(
+                wiregen.envelope(2, 1, wiregen.header_payload(rng, True, flags=flags))))
